@@ -22,6 +22,7 @@ def generate(repo):
     tail_repair = ghost = replay_index = False
     put_order_ok = ckpt_order_ok = True
     meta_first = False
+    slab_mirror = False
     try:
         wal = strip_comments(read(repo, "tensor_store/src/wal.rs"))
         _, body = find_fn(wal, "open", after=r"impl\s+TensorWal\b")
@@ -58,6 +59,19 @@ def generate(repo):
     except Exception as ex:
         items["put_durable step order"] = "miss:%s" % ex
     try:
+        _, body = find_fn(sr, "put", after=r"impl\s+SlabRouter\b")
+        m = re.search(r"KeyClass::Embedding\s*=>\s*\{(.*?)\n\s*\},\s*\n\s*KeyClass::Graph", body, re.S)
+        arm = m.group(1) if m else ""
+        if not m:
+            raise ValueError("Embedding arm of put not found")
+        n_del = len(re.findall(r"self\.embeddings\.delete\s*\(\s*entity_id\s*\)", arm))
+        _, rbody = find_fn(sr, "apply_wal_entry", after=r"impl\s+SlabRouter\b")
+        r_del = len(re.findall(r"self\.embeddings\.delete\s*\(\s*entity_id\s*\)", rbody.split("WalEntry::MetadataDelete")[0]))
+        slab_mirror = n_del >= 2 and r_del >= 2
+        items["embedding slab mirrors the written value"] = "translated"
+    except Exception as ex:
+        items["embedding slab mirrors the written value"] = "miss:%s" % ex
+    try:
         _, body = find_fn(sr, "checkpoint", after=r"impl\s+SlabRouter\b")
         i1 = body.find("save_to_file")
         i2 = body.find("wal.append")
@@ -78,8 +92,10 @@ def generate(repo):
         "Definition gen_put_order_ok : bool := %s.\n"
         "(* put_durable: MetadataSet is logged before EmbeddingSet *)\n"
         "Definition gen_put_meta_first : bool := %s.\n"
+        "(* put / apply_wal_entry(MetadataSet) of an emb: key without usable embedding drop the old vector *)\n"
+        "Definition gen_slab_mirror : bool := %s.\n"
         "(* checkpoint: save_to_file, then wal.append(marker), then wal.truncate *)\n"
         "Definition gen_ckpt_order_ok : bool := %s.\n"
-        % (_b(tail_repair), _b(ghost), _b(replay_index), _b(put_order_ok), _b(meta_first), _b(ckpt_order_ok))
+        % (_b(tail_repair), _b(ghost), _b(replay_index), _b(put_order_ok), _b(meta_first), _b(slab_mirror), _b(ckpt_order_ok))
     )
     return text, items
